@@ -22,6 +22,10 @@ def run(ctx):
     # both directions at once: the reader already parked in the transport when the backend writes its HelloRetryRequest
     if not ctx.replay:
         hrr_parked(ctx)
+        # hellos this library's own encoder never produces (pre-1.3 forms, present-but-empty extension blocks, arbitrary extension
+        # types): not replaced, so the backend gets the client's bytes exactly
+        import echcommon
+        echcommon.foreign(ctx, n=200 if ctx.quick else 5000, what="C07")
 
 
 def pipe_traces(ctx, n, label="pp"):
